@@ -53,6 +53,7 @@ type RTScn struct {
 	IPIDBase  uint32          `json:"ipid_base"`
 	EchoBase  uint32          `json:"echo_base"`
 	RouterBase string         `json:"router_base,omitempty"` // "private": routers use private addresses (C17)
+	RouterAddrs []string      `json:"router_addrs,omitempty"` // address of the router answering TTL 1, 2, ...
 	RDNS      map[string]string `json:"rdns,omitempty"`    // address -> "name" | "!error" | "" (empty list)
 	Bound     int             `json:"bound"`
 	UseListenerPort bool      `json:"use_listener_port,omitempty"`
@@ -178,6 +179,15 @@ func RunRT(cfg vsched.Config, sc *RTScn) *RTResult {
 	script.anyTarget = true
 	if sc.RouterBase == "private" {
 		script.routerFn = privateRouter
+	}
+	if len(sc.RouterAddrs) > 0 {
+		addrs := sc.RouterAddrs
+		script.routerFn = func(v6 bool, t int) netip.Addr {
+			if t >= 1 && t <= len(addrs) {
+				return netip.MustParseAddr(addrs[t-1])
+			}
+			return Router(v6, 0, t)
+		}
 	}
 	simnet.Install()
 	n := simnet.New(script)
